@@ -46,7 +46,7 @@ func enumDHCP(alpha []dOp, depth, i int, cfg dhcpCfg) dhcpHistory {
 var dReqClasses = []string{"", "offered", "offered", "current", "current", "other", "other", "free", "offsubnet", "network", "broadcast", "router", "host", "othersubnet", "twin"}
 
 func genDHCPHistory(t *rapid.T) dhcpHistory {
-	h := dhcpHistory{Cfg: dhcpCfg{Net: rapid.IntRange(0, 3).Draw(t, "net"), Mode: rapid.IntRange(1, 3).Draw(t, "mode"), Quiet: rapid.IntRange(0, 3).Draw(t, "quiet") == 0, Debug: rapid.IntRange(0, 5).Draw(t, "debug") == 0}}
+	h := dhcpHistory{Cfg: dhcpCfg{Net: rapid.IntRange(0, 4).Draw(t, "net"), Mode: rapid.IntRange(1, 3).Draw(t, "mode"), Quiet: rapid.IntRange(0, 3).Draw(t, "quiet") == 0, Debug: rapid.IntRange(0, 5).Draw(t, "debug") == 0}}
 	n := rapid.IntRange(5, 80).Draw(t, "nops")
 	for i := 0; i < n; i++ {
 		op := dOp{K: rapid.SampledFrom([]string{"discover", "discover", "discover", "request", "request", "request", "request", "decline", "release", "capture", "uncapture", "tick", "foreign", "purge"}).Draw(t, "k")}
@@ -128,7 +128,7 @@ func TestC11(t *testing.T) {
 	// lease of somebody else still remembers), then the leases expire (ticker, 5 h) and the session forgets the silent
 	// stations (purge) - in drawn order, so that freed, remembered and re-assigned addresses meet
 	drv.Prop(t, rec, "recycling", 1500, 40000, func(t *rapid.T) dhcpHistory {
-		h := dhcpHistory{Cfg: dhcpCfg{Net: rapid.SampledFrom([]int{0, 1, 3}).Draw(t, "net"), Mode: rapid.SampledFrom([]int{1, 1, 2}).Draw(t, "mode")}}
+		h := dhcpHistory{Cfg: dhcpCfg{Net: rapid.SampledFrom([]int{0, 1, 3, 4}).Draw(t, "net"), Mode: rapid.SampledFrom([]int{1, 1, 2}).Draw(t, "mode")}}
 		for r := rapid.IntRange(2, 4).Draw(t, "rounds"); r > 0; r-- {
 			for _, c := range rapid.Permutation([]int{0, 1, 2, 4, 6}).Draw(t, "order")[:rapid.IntRange(1, 3).Draw(t, "n")] {
 				h.Ops = append(h.Ops, dOp{K: "discover", C: c, XID: r, Req: rapid.SampledFrom([]string{"", "free", "free", "other"}).Draw(t, "req")})
